@@ -30,6 +30,15 @@ type BCESite struct {
 // unprovenBounds runs the compiler's own prove pass over the two packages of the working tree and
 // returns the bounds checks it could not discharge (static: nothing of otr3 is executed).
 func unprovenBounds(c *Ctx) ([]BCESite, error) {
+	if c.bceDone {
+		return append([]BCESite(nil), c.bceSites...), c.bceErr
+	}
+	s, err := unprovenBounds1(c)
+	c.bceDone, c.bceSites, c.bceErr = true, s, err
+	return append([]BCESite(nil), s...), err
+}
+
+func unprovenBounds1(c *Ctx) ([]BCESite, error) {
 	cmd := exec.Command("go", "build", "-gcflags=-d=ssa/check_bce/debug=1", ".", "./sexp")
 	cmd.Dir = c.RepoDir
 	cmd.Env = append(os.Environ(), "GOFLAGS=-mod=mod", "GOPROXY=off", "GOSUMDB=off", "GOTOOLCHAIN=local", "GOWORK=off", "CGO_ENABLED=0")
